@@ -28,7 +28,7 @@ from irispie.simultaneous._variants import Variant
 from .common import Ctx, Rng, rat_of_float, VERIF
 
 DRIVERS = ["C05"]
-EXTRA_PROPS = ["BridgeC05"]   # refinement bridge from the executable QMat linear algorithm to the matrix-level theorems (audited with this check)
+EXTRA_PROPS = ['BridgeC05', 'GenTieCore', 'GenTieC05']   # refinement bridge from the executable QMat linear algorithm to the matrix-level theorems (audited with this check)
 LEVEL = "proof"
 MANIFEST = {
     "category": "proof",
